@@ -119,6 +119,15 @@ def make_scenario(rng, seed):
         outs.append(st["outs"][0])
         expect[st["outs"][0]] = {"text": text.encode("latin-1"), "fail": fail, "console": console, "sid": st["id"],
                                  "all_outs": st["outs"] + st["iouts"]}
+    # rules with a 'description': the status line shows it instead of the command line - the same text for every statement (a
+    # project whose rules say "CC", "LINK"), or one per statement.  With a format that has no counter that moves between two
+    # completions, consecutive status lines are then byte for byte the same text.
+    described = rng.random() < 0.4
+    if described:
+        same = rng.random() < 0.6
+        for st in sc["stmts"]:
+            st["description"] = "STEP" if same else "STEP %s" % st["id"]
+            expect[st["outs"][0]]["desc"] = st["description"]
     return sc, expect
 
 
@@ -174,6 +183,11 @@ STATUS_FORMATS = [
     ("flag", "[$started/$finished/$total/$running/$remaining] $description"),
     ("flag", "${finished}of$total $$ ${progress} $description"),
     ("flag-over-env", "<$remaining.$running.$started.$total.$finished> $description"),
+    # no counter that changes when a command finishes
+    ("env", "[%s/%t] "),
+    ("env", "ninja> "),
+    ("flag", "[$started/$total] $description"),
+    ("flag", "$description"),
 ]
 _ENV_PH = {"s": rb"(\d+)", "f": rb"(\d+)", "t": rb"(\d+)", "r": rb"(\d+)", "u": rb"(-?\d+)", "p": rb"( *\d+%)", "e": rb"[0-9.]+"}
 _FLAG_PH = {"started": "s", "finished": "f", "total": "t", "running": "r", "remaining": "u", "progress": "p"}
@@ -298,18 +312,25 @@ def e2e_case(ctx, seed):
             cl = cmdline.get(o, "").replace("$$", "$").replace("$in", " ".join(next(s for s in sc["stmts"] if s["outs"][0] == o)["ins"])).replace("$out", " ".join(next(s for s in sc["stmts"] if s["outs"][0] == o)["outs"]))
             # the status line (or, for a failure, the FAILED header + full command line) directly precedes the block
             tail = before[-(len(cl) + 400):]
+            # what the status line of a successful command shows: the description if the rule has one, else the command line;
+            # for a described rule the formatted counters in front of it are matched too (the whole line is the command's own)
+            shown = re.escape(cl.encode("latin-1"))
+            if ex.get("desc"):
+                head = rb"\[\d+/\d+\] " if fmt is None else status_regex(fmt, how)[0]
+                shown = head + re.escape(ex["desc"].encode())      # (no line-start anchor: output that does not end in a newline is followed by the next status line on the same line)
+                ctx.count("blocks_checked_described_" + mode)
             if mode == "pipe":
                 if ex["fail"]:
                     allo = " ".join(ex["all_outs"]).encode()
                     okp = re.search(rb"FAILED: \[code=\d+\] " + re.escape(allo) + rb" \n" + re.escape(cl.encode("latin-1")) + rb"\n+$", tail)
                 else:
-                    okp = re.search(re.escape(cl.encode("latin-1")) + rb"\n+$", tail)
+                    okp = re.search(shown + rb"\n+$", tail)
             else:
                 if ex["fail"]:
                     allo = " ".join(ex["all_outs"]).encode()
                     okp = re.search(rb"FAILED: .*?" + re.escape(allo) + rb" \n" + re.escape(cl.encode("latin-1")) + rb"\n+$", tail, re.S)
                 else:
-                    okp = re.search(re.escape(cl.encode("latin-1")) + rb"(\x1b\[K)?\n+$", tail)
+                    okp = re.search(shown + rb"(\x1b\[K)?\n+$", tail)
             if not okp:
                 ctx.violation("C20/output-not-after-own-status-line/%s%s" % (mode, "/failed" if ex["fail"] else ""),
                               "%s: the block of %s is preceded by %r" % (what, o, before[-200:]), rep)
@@ -326,7 +347,8 @@ def e2e_case(ctx, seed):
             last_f = -1
             nlines = 0
             restarted = False
-            for mm in re.finditer(rx + re.escape(t.vtool.encode()), so):
+            follows_status = rb"(?:" + rb"|".join([re.escape(t.vtool.encode())] + sorted({re.escape(ex_["desc"].encode()) for ex_ in expect.values() if ex_.get("desc")})) + rb")"
+            for mm in re.finditer(rx + follows_status, so):
                 v = dict(zip(names, mm.groups()))
                 nlines += 1
                 ctx.count("formatted_status_lines_checked")
@@ -360,7 +382,8 @@ def e2e_case(ctx, seed):
                 ctx.violation("C20/formatted-status-line-missing", "%s: %d commands ran but no status line matches the format" % (what, nfin), rep)
                 return
         if fmt is None and mode == "pipe":
-            pairs = [(int(a), int(b)) for a, b in re.findall(rb"\[(\d+)/(\d+)\] " + re.escape(t.vtool.encode()), so)]
+            follows_status = rb"(?:" + rb"|".join([re.escape(t.vtool.encode())] + sorted({re.escape(ex_["desc"].encode()) for ex_ in expect.values() if ex_.get("desc")})) + rb")"
+            pairs = [(int(a), int(b)) for a, b in re.findall(rb"\[(\d+)/(\d+)\] " + follows_status, so)]
             ctx.count("status_lines_seen", len(pairs))
             for f, tt in pairs:
                 if f > tt:
